@@ -240,7 +240,7 @@ class Builder:
         lines.append("string vname () { %s return \"n\"; }" % " ".join(f["vname"]))
         lines += f["fns"]
         if name == "t":
-            lines.append("void prep () { object p0; vsel = 0; %s }" % " ".join(self.prep))
+            lines.append('void prep () { object p0; vsel = 0; "/c05/master"->refill (6); %s }' % " ".join(self.prep))
         return "\n".join(lines) + "\n"
 
 
@@ -287,12 +287,14 @@ def build_case(rng, cid, budget):
     return c
 
 
-def fixed_case(cid, run_body, ops, fns=(), prep="", tail=(), inject="inject t run", vname=""):
+def fixed_case(cid, run_body, ops, fns=(), prep="", tail=(), inject="inject t run", vname="", extra_files=None):
     src = "\n".join([l.replace("CREATE", "").replace("GLOBALS", "") for l in HEAD] + list(fns) +
                     ['string vname () { %s return "n"; }' % vname,
-                     "void prep () { object p0; vsel = 0; %s }" % prep,
+                     'void prep () { object p0; vsel = 0; "/c05/master"->refill (6); %s }' % prep,
                      "mixed run () { %s %s return 1; }" % (DECL, run_body)]) + "\n"
-    c = case_from(cid, {"t": src}, ops, tail=tail, inject=inject)
+    files = {"t": src}
+    files.update(extra_files or {})
+    c = case_from(cid, files, ops, tail=tail, inject=inject)
     c.meta["origin"] = "boundary"
     return c
 
@@ -303,9 +305,10 @@ CATCHSTMT = 'p0 = this_player (); e = catch (%s); VL ("catch " + e + (e && this_
 class C05(Prop):
     id = "C05"
     title = "after any LPC error the machine state is as before the failed call"
-    lean_modules = ["NV.C05.Exec", "NV.C05.Props", "NV.C05.Witness"]
+    lean_modules = ["NV.C05.Exec", "NV.C05.Guards", "NV.C05.Props", "NV.C05.Witness"]
     theorems = ["NV.C05.model_satisfies_spec", "NV.C05.exec_keeps_extension", "NV.C05.top_restores", "NV.C05.catch_yields_message_exec",
-                "NV.C05.guards_reset_first_level", "NV.C05.exec_good", "NV.C05.execCore_good", "NV.C05.raise_rspec",
+                "NV.C05.guards_reset_first_level", "NV.C05.exec_guards", "NV.C05.execCore_guards",
+                "NV.C05.restoreContext_guards", "NV.C05.exec_good", "NV.C05.execCore_good", "NV.C05.raise_rspec",
                 "NV.C05.runHandler_spec",
                 "NV.C05.restore_is_inverse", "NV.C05.handlers_run_exactly_once", "NV.C05.handler_not_run_on_normal_exit",
                 "NV.C05.catch_yields_message", "NV.C05.raise_sets_catch_value", "NV.C05.throw_sets_catch_value",
@@ -316,7 +319,9 @@ class C05(Prop):
                         "NV.C05.prefix_safe_apply_surplus_crashes", "NV.C05.fixed_safe_apply_surplus_recovers",
                         "NV.C05.prefix_safe_apply_leaks_argument", "NV.C05.fixed_safe_apply_end_to_end",
                         "NV.C05.negative_pop_is_a_crash", "NV.C05.changed_register_is_not_restored",
-                        "NV.C05.throw_does_not_reset_guards", "NV.C05.error_resets_guards_example"]
+                        "NV.C05.throw_does_not_reset_guards", "NV.C05.error_resets_guards_example",
+                        "NV.C05.caught_throw_in_load_restores_guards", "NV.C05.catch_in_create_keeps_depth",
+                        "NV.C05.caught_throw_in_dhook_restores_guards"]
     consts = [("frameFunction", "FRAME_FUNCTION"), ("frameFunp", "FRAME_FUNP"), ("frameCatch", "FRAME_CATCH"),
               ("frameFake", "FRAME_FAKE"), ("frameMask", "FRAME_MASK"),
               ("esStackFull", "ES_STACK_FULL"), ("esMaxEvalCost", "ES_MAX_EVAL_COST"),
@@ -383,6 +388,34 @@ class C05(Prop):
                             fns=['void f1 () { VL ("say set-cg"); enable_commands (); error ("boom3\\n"); }']))
         B.append(fixed_case("b-cg-top", 'VL ("say set-cg"); enable_commands (); f1 ();', "(say set-cg) (setreg cg t) (call local t 0 0 (raise boom4))",
                             fns=['void f1 () { error ("boom4\\n"); }']))
+        # the two guards (num_objects_this_thread, restrict_destruct) after a CAUGHT error or throw inside a load /
+        # inside a move_or_destruct() hook: they must be what they were at the catch point
+        obj = '#include "/include/vcommon.h"\nvoid create () { %s }\n'
+        B.append(fixed_case("b-throw-in-load", CATCHSTMT % 'load_object ("/c05/gen/LT")',
+                            "(catch (tmp 1 (load (call other t 0 0 (throw t1))))) (saycatch)",
+                            prep='if (p0 = find_object ("/c05/gen/LT")) destruct (p0);',
+                            extra_files={"LT": obj % 'throw ("t1");'}))
+        B.append(fixed_case("b-error-in-load", CATCHSTMT % 'load_object ("/c05/gen/LE")',
+                            "(catch (tmp 1 (load (call other t 0 0 (raise boom5))))) (saycatch)",
+                            prep='if (p0 = find_object ("/c05/gen/LE")) destruct (p0);',
+                            extra_files={"LE": obj % 'error ("boom5\\n");'}))
+        B.append(fixed_case("b-catch-in-create", 'load_object ("/c05/gen/LC"); VL ("say after");',
+                            "(tmp 1 (load (call other t 0 0 (catch (call local t 0 0 (raise boom6))) (say in-create)))) (say after)",
+                            prep='if (p0 = find_object ("/c05/gen/LC")) destruct (p0);',
+                            extra_files={"LC": '#include "/include/vcommon.h"\nvoid f () { error ("boom6\\n"); }\n'
+                                               'void create () { mixed e; e = catch (f ()); VL ("say in-create"); }\n'}))
+        dsrc = ('#include "/include/vcommon.h"\nvoid create () { seteuid (getuid ()); }\n'
+                'void move_or_destruct (object d) { %s }\nvoid enter (object b) { move_object (b); }\n')
+        dprep = ('if (p0 = find_object ("/c05/gen/%s")) destruct (p0); if (bx) destruct (bx); bx = new ("/c05/box"); '
+                 'load_object ("/c05/gen/%s"); "/c05/gen/%s"->enter (bx);')
+        B.append(fixed_case("b-error-in-dhook", CATCHSTMT % "destruct (bx)",
+                            "(catch (tmp 1 (dhook t (call other t 1 1 (raise boom7))))) (saycatch)",
+                            fns=["object bx;"], prep=dprep % ("DE", "DE", "DE"),
+                            extra_files={"DE": dsrc % 'error ("boom7\\n");'}))
+        B.append(fixed_case("b-throw-in-dhook", CATCHSTMT % "destruct (bx)",
+                            "(catch (tmp 1 (dhook t (call other t 1 1 (throw t8))))) (saycatch)",
+                            fns=["object bx;"], prep=dprep % ("DT", "DT", "DT"),
+                            extra_files={"DT": dsrc % 'throw ("t8");'}))
         # a register changed between save_context and the first frame push is not restored (model predicts it)
         B.append(fixed_case("b-setreg-co", "f1 ();", "(call local t 0 0 (say x))", fns=['void f1 () { VL ("say x"); }'],
                             inject="inject t run co probe"))
